@@ -25,7 +25,10 @@ def run(args, prop="C01", backends=("vm",)):
                        "floats are dyadic rationals; other float results are not decided",
                        "display order of objects with several fields is not decided here (C14)"]
     progs = programs(thorough, C.seed(), rnd)
-    results, cases, rendered = sem.run_programs(progs, rep, backends=backends)
+    pool = C.Pool(C.build_worker())
+    results, cases, rendered = sem.run_programs(progs, rep, backends=backends, pool=pool)
+    from . import int64
+    int64.run_family(rep, pool, backends=backends)
     ok = [p for p in progs if p["id"] in rendered]
     for p in rnd.sample(ok, 4):
         rep.sample({"family": p["feats"]["family"], "program": rendered[p["id"]][0][:1200],
